@@ -503,6 +503,7 @@ class SVG:
 
         # capture elements by id so even if we change it they remain stable
         el_by_id = {el.attrib["id"]: el for el in self.xpath(".//svg:*[@id]")}
+        self._check_use_cycles(el_by_id)
 
         while True:
             swaps = []
@@ -555,6 +556,33 @@ class SVG:
 
             for old_el, new_el in swaps:
                 old_el.getparent().replace(old_el, new_el)
+
+    def _check_use_cycles(self, el_by_id):
+        # An element that (transitively) instantiates itself through <use> would
+        # be expanded forever: reject it up front.
+        href = _xlink_href_attr_name()
+        use_tag = f"{{{svgns()}}}use"
+        refs = {
+            el_id: {u.attrib.get(href, "")[1:] for u in el.iter(use_tag)}
+            for el_id, el in el_by_id.items()
+        }
+        done = set()
+        for start in refs:
+            # iterative depth first search, `path` holds the ids being expanded
+            stack = [(start, iter(refs[start]))]
+            path = {start}
+            while stack:
+                el_id, targets = stack[-1]
+                target = next(targets, None)
+                if target is None:
+                    stack.pop()
+                    path.discard(el_id)
+                    done.add(el_id)
+                elif target in path:
+                    raise ValueError(f"Circular <use> reference through '{target}'")
+                elif target in refs and target not in done:
+                    path.add(target)
+                    stack.append((target, iter(refs[target])))
 
     def resolve_use(self, inplace=False):
         """Instantiate reused elements.
